@@ -100,6 +100,45 @@ def run(ctx):
     if n < 5:
         raise AnalysisError("PAIR-3 matched fewer than 5 sites")
     init_walkers(ctx)
+    rdm1_spin_components(ctx)
+
+
+def rdm1_spin_components(ctx):
+    """SYM-1: get_init_walkers takes the down walker from component 1 of the trial's 1-RDM.  A _calc_rdm1 that obtains
+    its per-spin quantities from a helper with an (up, dn) pair of results must build component 1 from the dn result:
+    returning the very same expression twice while the dn result exists hands get_init_walkers the up density matrix
+    for both spins."""
+    from ..symex import subterms
+    p = ctx.p
+    seen = set()
+    for cq in p.subclasses("wavefunctions.wave_function"):
+        fi = p.lookup_method(cq, "_calc_rdm1")
+        if fi is None or fi.is_abstract or fi.qualname in seen:
+            continue
+        seen.add(fi.qualname)
+        ev = Evaluator(p)
+        ev.auto_inline_helpers = True
+        try:
+            fr = ev.eval_function(fi, self_class=cq)
+        except Exception:
+            continue
+        for _, r_, _ in fr.returns:
+            r_ = strip_wrappers(r_)
+            a = m_arrcall(r_, "array", "asarray", "stack") if r_.op == "call" else None
+            comps = strip_wrappers(a[0]) if a else r_
+            if comps.op not in ("list", "tuple") or len(comps.args) != 2:
+                continue
+            up, dn = strip_wrappers(comps.args[0]), strip_wrappers(comps.args[1])
+            pair_results = [x for x in subterms(up) if x.op == "getitem" and is_const(x.args[1], 0) and x.args[0].op == "call"
+                            and not (func_name(x.args[0]) or "").startswith(("jax.numpy.", "numpy.", "jax.lax.", "jax.random."))
+                            and array_fn(x.args[0]) is None]
+            if up is dn and pair_results:
+                ctx.ob("SYM-1", f"{fi.qualname}: the down-spin density matrix is built from the down-spin result", False,
+                       f"both components are {show(up, maxdepth=2)[:70]}, which selects result [0] of "
+                       f"{show(pair_results[0].args[0].args[0], maxdepth=1)[:50]}; its result [1] is never used", fi)
+            elif pair_results:
+                ctx.ob("SYM-1", f"{fi.qualname}: the down-spin density matrix is built from the down-spin result", True,
+                       "components differ", fi)
 
 
 def _replicated(t, count_sym) -> bool:
